@@ -27,6 +27,7 @@ fn prop_by_id(id: &str) -> Option<Box<dyn Prop>> {
         "C19" => Some(Box::new(props::c19::C19)),
         "C03" => Some(Box::new(props::c03::C03)),
         "C04" => Some(Box::new(props::c03::C04)),
+        "C06" => Some(Box::new(props::c06::C06)),
         "C09" => Some(Box::new(props::c09::C09)),
         "C10" => Some(Box::new(props::c10::C10)),
         "C15" => Some(Box::new(props::c15::C15)),
